@@ -20,64 +20,68 @@ Lemma gen_at_pos ws r t : 1 <= gen_at ws r t.
 Proof. unfold gen_at. lia. Qed.
 
 (* ---- one pass through the loop body ---- *)
-Lemma step_none ws c t last r sc t1 last' r' sc' :
-  iter_step ws c t last r sc = (None, t1, last', r', sc') ->
+Lemma step_none ws rf c t last r sc t1 last' r' sc' :
+  iter_step ws rf c t last r sc = (None, t1, last', r', sc') ->
   gen_at ws r t = last /\ t1 = t /\ last' = last /\ r' = r /\ sc' = sc.
 Proof.
-  unfold iter_step. destruct (gen_at ws r t =? last) eqn:E; [|discriminate].
+  unfold iter_step. destruct (gen_at ws r t =? last) eqn:E; [|destruct (read_fails rf t); discriminate].
   intros H. injection H as <- <- <- <-. apply N.eqb_eq in E. auto.
 Qed.
 
-Lemma step_some ws c t last r sc a t1 last' r' sc' :
+Lemma step_some ws rf c t last r sc a t1 last' r' sc' :
   t <= c ->
-  iter_step ws c t last r sc = (Some a, t1, last', r', sc') ->
+  iter_step ws rf c t last r sc = (Some a, t1, last', r', sc') ->
   gen_at ws r t <> last /\ a_t a = t /\ a_gen a = gen_at ws r t /\ a_end a = t1
   /\ t <= t1 /\ t1 <= c /\ t1 <= t + upload_timeout
   /\ last' = (if a_ok a then a_gen a else last) /\ r <= r' /\ r' = r + a_race a
-  /\ (a_ok a = true -> t1 = t + u_dur (hd default_upl sc) /\ u_ok (hd default_upl sc) = true).
+  /\ (a_ok a = true -> t1 = t + u_dur (hd default_upl sc) /\ u_ok (hd default_upl sc) = true)
+  /\ (a_sent a = negb (read_fails rf t)) /\ (a_sent a = false -> a_ok a = false /\ t1 = t /\ r' = r /\ sc' = sc).
 Proof.
   intros Htc. unfold iter_step. destruct (gen_at ws r t =? last) eqn:E; [discriminate|].
-  apply N.eqb_neq in E. intros H. injection H as <- <- <- <- <-. cbn [a_t a_gen a_ok a_end a_race].
+  apply N.eqb_neq in E. destruct (read_fails rf t) eqn:Erf.
+  { intros H. injection H as <- <- <- <- <-. cbn [a_t a_gen a_ok a_end a_race a_sent negb]. unfold upload_timeout.
+    repeat split; auto; try lia; discriminate. }
+  intros H. injection H as <- <- <- <- <-. cbn [a_t a_gen a_ok a_end a_race a_sent negb].
   set (e := hd default_upl sc). unfold upload_timeout.
   destruct (c <? t + N.min (u_dur e) 300000) eqn:Ea.
   - apply N.ltb_lt in Ea. repeat split; auto; try lia.
     all: try (rewrite ?andb_false_r; discriminate).
-  - apply N.ltb_ge in Ea. repeat split; auto; try lia.
+  - apply N.ltb_ge in Ea. repeat split; auto; try lia; discriminate.
 Qed.
 
-Lemma loop_exit f ws c : forall t last r sc its x, loop f ws c t last r sc = Some (its, x) -> x = c.
+Lemma loop_exit f ws rf c : forall t last r sc its x, loop f ws rf c t last r sc = Some (its, x) -> x = c.
 Proof.
   induction f as [|f IH]; intros t last r sc its x H; cbn [loop] in H; [discriminate|].
-  destruct (iter_step ws c t last r sc) as [[[[up t1] last'] r'] sc'].
+  destruct (iter_step ws rf c t last r sc) as [[[[up t1] last'] r'] sc'].
   destruct (c <=? t1 + period); [injection H as _ <-; reflexivity|].
-  destruct (loop f ws c (t1 + period) last' r' sc') as [[its' x']|] eqn:E; [|discriminate].
+  destruct (loop f ws rf c (t1 + period) last' r' sc') as [[its' x']|] eqn:E; [|discriminate].
   injection H as _ <-. eapply IH; eauto.
 Qed.
 
 (* the first iteration of a run *)
-Lemma loop_head f ws c t last r sc it rest x :
-  loop f ws c t last r sc = Some (it :: rest, x) ->
+Lemma loop_head f ws rf c t last r sc it rest x :
+  loop f ws rf c t last r sc = Some (it :: rest, x) ->
   i_t it = t /\ i_gen it = gen_at ws r t /\ (i_up it = None <-> gen_at ws r t = last).
 Proof.
   destruct f as [|f]; cbn [loop]; [discriminate|].
-  destruct (iter_step ws c t last r sc) as [[[[up t1] last'] r'] sc'] eqn:Es.
+  destruct (iter_step ws rf c t last r sc) as [[[[up t1] last'] r'] sc'] eqn:Es.
   assert (Hup : up = None <-> gen_at ws r t = last).
   { unfold iter_step in Es. destruct (gen_at ws r t =? last) eqn:E.
     - injection Es as <- _ _ _ _. apply N.eqb_eq in E. tauto.
-    - injection Es as <- _ _ _ _. apply N.eqb_neq in E. split; [discriminate|contradiction]. }
+    - apply N.eqb_neq in E. destruct (read_fails rf t); injection Es as <- _ _ _ _; (split; [discriminate|contradiction]). }
   destruct (c <=? t1 + period).
   - intros H. injection H as <- _ _. cbn. auto.
-  - destruct (loop f ws c (t1 + period) last' r' sc') as [[its' x']|]; [|discriminate].
+  - destruct (loop f ws rf c (t1 + period) last' r' sc') as [[its' x']|]; [|discriminate].
     intros H. injection H as <- _ _. cbn. auto.
 Qed.
 
-Lemma loop_nonempty f ws c t last r sc its x : loop f ws c t last r sc = Some (its, x) -> its <> [].
+Lemma loop_nonempty f ws rf c t last r sc its x : loop f ws rf c t last r sc = Some (its, x) -> its <> [].
 Proof.
   destruct f as [|f]; cbn [loop]; [discriminate|].
-  destruct (iter_step ws c t last r sc) as [[[[up t1] last'] r'] sc'].
+  destruct (iter_step ws rf c t last r sc) as [[[[up t1] last'] r'] sc'].
   destruct (c <=? t1 + period).
   - intros H. injection H as <- _. discriminate.
-  - destruct (loop f ws c (t1 + period) last' r' sc') as [[its' x']|]; [|discriminate].
+  - destruct (loop f ws rf c (t1 + period) last' r' sc') as [[its' x']|]; [|discriminate].
     intros H. injection H as <- _. discriminate.
 Qed.
 
@@ -85,36 +89,36 @@ Qed.
 Definition okstate (ws : list N) (c t last r : N) : Prop := t <= c /\ last <= gen_at ws r t.
 
 (* unfolding one iteration, with everything known about it *)
-Lemma loop_step f ws c t last r sc its x :
+Lemma loop_step f ws rf c t last r sc its x :
   okstate ws c t last r ->
-  loop (S f) ws c t last r sc = Some (its, x) ->
+  loop (S f) ws rf c t last r sc = Some (its, x) ->
   exists up t1 last' r' sc',
-    iter_step ws c t last r sc = (up, t1, last', r', sc')
+    iter_step ws rf c t last r sc = (up, t1, last', r', sc')
     /\ t <= t1 /\ t1 <= c /\ r <= r'
     /\ last' = lastok_step last {| i_t := t; i_gen := gen_at ws r t; i_up := up |}
     /\ t1 = end_of {| i_t := t; i_gen := gen_at ws r t; i_up := up |}
     /\ ((c <= t1 + period /\ its = [{| i_t := t; i_gen := gen_at ws r t; i_up := up |}])
         \/ (t1 + period < c /\ okstate ws c (t1 + period) last' r' /\
-            exists its', loop f ws c (t1 + period) last' r' sc' = Some (its', x)
+            exists its', loop f ws rf c (t1 + period) last' r' sc' = Some (its', x)
                          /\ its = {| i_t := t; i_gen := gen_at ws r t; i_up := up |} :: its')).
 Proof.
   intros [Htc Hl] H. cbn [loop] in H.
-  destruct (iter_step ws c t last r sc) as [[[[up t1] last'] r'] sc'] eqn:Es.
+  destruct (iter_step ws rf c t last r sc) as [[[[up t1] last'] r'] sc'] eqn:Es.
   exists up, t1, last', r', sc'. split; [reflexivity|].
   assert (F : t <= t1 /\ t1 <= c /\ r <= r' /\ last' <= gen_at ws r t
               /\ last' = lastok_step last {| i_t := t; i_gen := gen_at ws r t; i_up := up |}
               /\ t1 = end_of {| i_t := t; i_gen := gen_at ws r t; i_up := up |}).
   { destruct up as [a|].
-    - destruct (step_some _ _ _ _ _ _ _ _ _ _ _ Htc Es) as (_ & _ & Hg & He & H1 & H2 & _ & Hl' & Hr & _).
+    - destruct (step_some _ _ _ _ _ _ _ _ _ _ _ _ Htc Es) as (_ & _ & Hg & He & H1 & H2 & _ & Hl' & Hr & _).
       unfold lastok_step, end_of; cbn [i_up]. repeat split; auto.
       rewrite Hl'. destruct (a_ok a); lia.
-    - destruct (step_none _ _ _ _ _ _ _ _ _ _ Es) as (_ & -> & -> & -> & _).
+    - destruct (step_none _ _ _ _ _ _ _ _ _ _ _ Es) as (_ & -> & -> & -> & _).
       unfold lastok_step, end_of; cbn. repeat split; auto; lia. }
   destruct F as (F1 & F2 & F3 & F4 & F5 & F6). repeat (split; [assumption|]).
   destruct (c <=? t1 + period) eqn:Ec.
   - left. apply N.leb_le in Ec. injection H as <- _. auto.
   - right. apply N.leb_gt in Ec. split; [exact Ec|].
-    destruct (loop f ws c (t1 + period) last' r' sc') as [[its' x']|] eqn:El; [|discriminate].
+    destruct (loop f ws rf c (t1 + period) last' r' sc') as [[its' x']|] eqn:El; [|discriminate].
     injection H as <- <-. split.
     + split; [lia|]. pose proof (gen_at_mono ws r r' t (t1 + period) F3). unfold period in *. lia.
     + exists its'. auto.
@@ -122,23 +126,23 @@ Qed.
 
 (* ---- change-driven: an iteration uploads exactly when the generation differs from the one
    covered by the last acknowledged upload; the body is the file of the generation read ---- *)
-Lemma loop_change_driven f ws c : forall t last r sc its x,
-  okstate ws c t last r -> loop f ws c t last r sc = Some (its, x) ->
+Lemma loop_change_driven f ws rf c : forall t last r sc its x,
+  okstate ws c t last r -> loop f ws rf c t last r sc = Some (its, x) ->
   forall pre it post, its = pre ++ it :: post ->
   (i_up it = None <-> i_gen it = lastok last pre)
   /\ (forall a, i_up it = Some a -> a_gen a = i_gen it /\ a_t a = i_t it /\ i_gen it <> lastok last pre).
 Proof.
   induction f as [|f IH]; intros t last r sc its x Hs H pre it post E; [discriminate|].
-  destruct (loop_step _ _ _ _ _ _ _ _ _ Hs H) as (up & t1 & last' & r' & sc' & Es & _ & _ & _ & Hl' & _ & D).
+  destruct (loop_step _ _ _ _ _ _ _ _ _ _ Hs H) as (up & t1 & last' & r' & sc' & Es & _ & _ & _ & Hl' & _ & D).
   assert (Cur : forall it0, it0 = {| i_t := t; i_gen := gen_at ws r t; i_up := up |} ->
           (i_up it0 = None <-> i_gen it0 = last)
           /\ (forall a, i_up it0 = Some a -> a_gen a = i_gen it0 /\ a_t a = i_t it0 /\ i_gen it0 <> last)).
   { intros it0 ->. cbn [i_up i_gen i_t]. destruct up as [a|].
     - destruct Hs as [Htc _].
-      destruct (step_some _ _ _ _ _ _ _ _ _ _ _ Htc Es) as (Hne & Ht & Hg & _).
+      destruct (step_some _ _ _ _ _ _ _ _ _ _ _ _ Htc Es) as (Hne & Ht & Hg & _).
       split; [split; [discriminate|intros; contradiction]|].
       intros a' Ha. injection Ha as <-. auto.
-    - destruct (step_none _ _ _ _ _ _ _ _ _ _ Es) as (Hg & _). split; [tauto|discriminate]. }
+    - destruct (step_none _ _ _ _ _ _ _ _ _ _ _ Es) as (Hg & _). split; [tauto|discriminate]. }
   destruct D as [[_ ->]|(_ & Hs' & its' & Hrec & ->)].
   - destruct pre as [|p pre]; cbn in E.
     + injection E as <- _. apply Cur. reflexivity.
@@ -150,18 +154,18 @@ Proof.
 Qed.
 
 (* ---- rate: an iteration starts one period after the previous one ended ---- *)
-Lemma loop_rate f ws c : forall t last r sc its x,
-  okstate ws c t last r -> loop f ws c t last r sc = Some (its, x) ->
+Lemma loop_rate f ws rf c : forall t last r sc its x,
+  okstate ws c t last r -> loop f ws rf c t last r sc = Some (its, x) ->
   forall pre it1 it2 post, its = pre ++ it1 :: it2 :: post ->
   i_t it2 = end_of it1 + period /\ i_t it1 <= end_of it1.
 Proof.
   induction f as [|f IH]; intros t last r sc its x Hs H pre it1 it2 post E; [discriminate|].
-  destruct (loop_step _ _ _ _ _ _ _ _ _ Hs H) as (up & t1 & last' & r' & sc' & Es & Ht1 & _ & _ & _ & He & D).
+  destruct (loop_step _ _ _ _ _ _ _ _ _ _ Hs H) as (up & t1 & last' & r' & sc' & Es & Ht1 & _ & _ & _ & He & D).
   destruct D as [[_ ->]|(_ & Hs' & its' & Hrec & ->)].
   - destruct pre as [|p [|q pre]]; discriminate.
   - destruct pre as [|p pre]; cbn in E.
     + injection E as <- E. subst its'.
-      destruct (loop_head _ _ _ _ _ _ _ _ _ _ Hrec) as (Ht2 & _).
+      destruct (loop_head _ _ _ _ _ _ _ _ _ _ _ Hrec) as (Ht2 & _).
       rewrite Ht2, <- He. cbn [i_t]. auto.
     + injection E as _ E. apply (IH _ _ _ _ _ _ Hs' Hrec pre it1 it2 post E).
 Qed.
@@ -173,12 +177,12 @@ Fixpoint gapped (l : list N) : Prop :=
   | x :: l' => (forall y, In y l' -> x + period <= y) /\ gapped l'
   end.
 
-Lemma loop_gapped f ws c : forall t last r sc its x,
-  okstate ws c t last r -> loop f ws c t last r sc = Some (its, x) ->
+Lemma loop_gapped f ws rf c : forall t last r sc its x,
+  okstate ws c t last r -> loop f ws rf c t last r sc = Some (its, x) ->
   gapped (map i_t its) /\ (forall y, In y (map i_t its) -> t <= y /\ y <= c).
 Proof.
   induction f as [|f IH]; intros t last r sc its x Hs H; [discriminate|].
-  destruct (loop_step _ _ _ _ _ _ _ _ _ Hs H) as (up & t1 & last' & r' & sc' & Es & Ht1 & Ht1c & _ & _ & _ & D).
+  destruct (loop_step _ _ _ _ _ _ _ _ _ _ Hs H) as (up & t1 & last' & r' & sc' & Es & Ht1 & Ht1c & _ & _ & _ & D).
   destruct Hs as [Htc _].
   destruct D as [[_ ->]|(Hlt & Hs' & its' & Hrec & ->)].
   - cbn. split; [split; [intros y []|exact I]|]. intros y [<-|[]]. lia.
@@ -212,21 +216,21 @@ Proof.
 Qed.
 
 (* ---- retry: after an upload that was not acknowledged the next iteration uploads again ---- *)
-Lemma loop_retry f ws c : forall t last r sc its x,
-  okstate ws c t last r -> loop f ws c t last r sc = Some (its, x) ->
+Lemma loop_retry f ws rf c : forall t last r sc its x,
+  okstate ws c t last r -> loop f ws rf c t last r sc = Some (its, x) ->
   forall pre it1 it2 post a, its = pre ++ it1 :: it2 :: post ->
   i_up it1 = Some a -> a_ok a = false -> i_up it2 <> None.
 Proof.
   induction f as [|f IH]; intros t last r sc its x Hs H pre it1 it2 post a E Hu Hf; [discriminate|].
-  destruct (loop_step _ _ _ _ _ _ _ _ _ Hs H) as (up & t1 & last' & r' & sc' & Es & Ht1 & _ & Hr & Hl' & _ & D).
+  destruct (loop_step _ _ _ _ _ _ _ _ _ _ Hs H) as (up & t1 & last' & r' & sc' & Es & Ht1 & _ & Hr & Hl' & _ & D).
   destruct D as [[_ ->]|(_ & Hs' & its' & Hrec & ->)].
   - destruct pre as [|p [|q pre]]; discriminate.
   - destruct pre as [|p pre]; cbn in E.
     + injection E as <- E. subst its'. cbn [i_up] in Hu. subst up.
       destruct Hs as [Htc Hl].
-      destruct (step_some _ _ _ _ _ _ _ _ _ _ _ Htc Es) as (Hne & _ & _ & _ & _ & _ & _ & Hl2 & _).
+      destruct (step_some _ _ _ _ _ _ _ _ _ _ _ _ Htc Es) as (Hne & _ & _ & _ & _ & _ & _ & Hl2 & _).
       rewrite Hf in Hl2. subst last'.
-      destruct (loop_head _ _ _ _ _ _ _ _ _ _ Hrec) as (_ & _ & Hn).
+      destruct (loop_head _ _ _ _ _ _ _ _ _ _ _ Hrec) as (_ & _ & Hn).
       intros Hnone. apply Hn in Hnone.
       pose proof (gen_at_mono ws r r' t (t1 + period) Hr). unfold period in *. lia.
     + injection E as _ E. apply (IH _ _ _ _ _ _ Hs' Hrec pre it1 it2 post a E Hu Hf).
@@ -236,13 +240,13 @@ Qed.
 Lemma lastok_app l0 a b : lastok l0 (a ++ b) = lastok (lastok l0 a) b.
 Proof. unfold lastok. apply fold_left_app. Qed.
 
-Lemma quiet_after f ws c t last r sc its x :
-  okstate ws c t last r -> loop f ws c t last r sc = Some (its, x) ->
+Lemma quiet_after f ws rf c t last r sc its x :
+  okstate ws c t last r -> loop f ws rf c t last r sc = Some (its, x) ->
   forall post pre g, its = pre ++ post -> lastok last pre = g ->
   (forall it, In it post -> i_gen it = g) -> forall it, In it post -> i_up it = None.
 Proof.
   intros Hs H. induction post as [|p post IH]; intros pre g E Hl Hg it Hin; [destruct Hin|].
-  destruct (loop_change_driven _ _ _ _ _ _ _ _ _ Hs H pre p post E) as [Hn _].
+  destruct (loop_change_driven _ _ _ _ _ _ _ _ _ _ Hs H pre p post E) as [Hn _].
   assert (Hp : i_up p = None) by (apply Hn; rewrite Hl; apply Hg; left; reflexivity).
   destruct Hin as [<-|Hin]; [exact Hp|].
   apply (IH (pre ++ [p]) g); auto.
@@ -252,19 +256,19 @@ Proof.
 Qed.
 
 (* ---- termination: with the fuel of [backup_run] the loop always returns ---- *)
-Lemma loop_terminates f ws c : forall t last r sc,
+Lemma loop_terminates f ws rf c : forall t last r sc,
   okstate ws c t last r -> c < t + N.of_nat f * period ->
-  exists its, loop f ws c t last r sc = Some (its, c).
+  exists its, loop f ws rf c t last r sc = Some (its, c).
 Proof.
   unfold period. induction f as [|f IH]; intros t last r sc Hs Hf.
   - destruct Hs. cbn in Hf. lia.
-  - cbn [loop]. destruct (iter_step ws c t last r sc) as [[[[up t1] last'] r'] sc'] eqn:Es.
+  - cbn [loop]. destruct (iter_step ws rf c t last r sc) as [[[[up t1] last'] r'] sc'] eqn:Es.
     destruct Hs as [Htc Hl].
     assert (F : t <= t1 /\ r <= r' /\ last' <= gen_at ws r t).
     { destruct up as [a|].
-      - destruct (step_some _ _ _ _ _ _ _ _ _ _ _ Htc Es) as (_ & _ & Hg & _ & H1 & _ & _ & Hl' & Hr & _).
+      - destruct (step_some _ _ _ _ _ _ _ _ _ _ _ _ Htc Es) as (_ & _ & Hg & _ & H1 & _ & _ & Hl' & Hr & _).
         repeat split; auto. rewrite Hl'. destruct (a_ok a); lia.
-      - destruct (step_none _ _ _ _ _ _ _ _ _ _ Es) as (_ & -> & -> & -> & _). repeat split; lia. }
+      - destruct (step_none _ _ _ _ _ _ _ _ _ _ _ Es) as (_ & -> & -> & -> & _). repeat split; lia. }
     destruct F as (F1 & F2 & F3).
     destruct (c <=? t1 + period) eqn:Ec; [eexists; reflexivity|].
     apply N.leb_gt in Ec. unfold period in Ec.
@@ -291,9 +295,9 @@ Proof. apply loop_terminates; [apply init_ok|apply fuel_enough]. Qed.
 Theorem run_first_upload tl its x : backup_run tl = Some (its, x) ->
   exists it rest a, its = it :: rest /\ i_t it = 0 /\ i_up it = Some a.
 Proof.
-  intros H. pose proof (loop_nonempty _ _ _ _ _ _ _ _ _ H) as Hne.
+  intros H. pose proof (loop_nonempty _ _ _ _ _ _ _ _ _ _ H) as Hne.
   destruct its as [|it rest]; [contradiction|].
-  destruct (loop_head _ _ _ _ _ _ _ _ _ _ H) as (Ht & Hg & Hn).
+  destruct (loop_head _ _ _ _ _ _ _ _ _ _ _ H) as (Ht & Hg & Hn).
   destruct (i_up it) as [a|] eqn:E.
   - exists it, rest, a. auto.
   - exfalso. assert (G : gen_at (ok_writes tl) 0 0 = 0) by (apply Hn; reflexivity).
@@ -314,7 +318,7 @@ Proof. intros H. eapply loop_rate; [apply init_ok|exact H]. Qed.
 Theorem run_quiescent tl its x : backup_run tl = Some (its, x) ->
   forall a W, N.of_nat (length (filter (fun t => (a <=? t) && (t <=? a + W)) (map i_t its))) * period <= W + period.
 Proof.
-  intros H a W. destruct (loop_gapped _ _ _ _ _ _ _ _ _ (init_ok _ _) H) as [G _].
+  intros H a W. destruct (loop_gapped _ _ _ _ _ _ _ _ _ _ (init_ok _ _) H) as [G _].
   apply (gapped_window _ (gapped_filter _ _ G) a W).
   intros y Hy. apply filter_In in Hy. destruct Hy as [_ Hy]. lia.
 Qed.
@@ -332,19 +336,19 @@ Proof.
   intros H pre it post a E Hu Hok Hq.
   destruct (run_change_driven _ _ _ H pre it post E) as [_ Hs]. destruct (Hs a Hu) as (Hg & _).
   split; [exact Hg|].
-  apply (quiet_after _ _ _ _ _ _ _ _ _ (init_ok _ _) H post (pre ++ [it]) (a_gen a)).
+  apply (quiet_after _ _ _ _ _ _ _ _ _ _ (init_ok _ _) H post (pre ++ [it]) (a_gen a)).
   - rewrite <- app_assoc. exact E.
   - rewrite lastok_app. cbn. unfold lastok_step. rewrite Hu, Hok. reflexivity.
   - exact Hq.
 Qed.
 
-Lemma loop_cancel f ws c : forall t last r sc its x,
-  okstate ws c t last r -> loop f ws c t last r sc = Some (its, x) ->
+Lemma loop_cancel f ws rf c : forall t last r sc its x,
+  okstate ws c t last r -> loop f ws rf c t last r sc = Some (its, x) ->
   (forall it, In it its -> i_t it <= c /\ end_of it <= c)
   /\ (exists pre it, its = pre ++ [it] /\ c <= end_of it + period).
 Proof.
   induction f as [|f IH]; intros t last r sc its x Hs H; [discriminate|].
-  destruct (loop_step _ _ _ _ _ _ _ _ _ Hs H) as (up & t1 & last' & r' & sc' & Es & Ht1 & Ht1c & _ & _ & He & D).
+  destruct (loop_step _ _ _ _ _ _ _ _ _ _ Hs H) as (up & t1 & last' & r' & sc' & Es & Ht1 & Ht1c & _ & _ & He & D).
   destruct Hs as [Htc _].
   destruct D as [[Hc ->]|(Hlt & Hs' & its' & Hrec & ->)].
   - split.
@@ -375,13 +379,13 @@ Proof.
   destruct (run_change_driven _ _ _ H pre it post E) as [_ Hs]. destruct (Hs a Hu) as (Hg & Ht & _).
   repeat split; auto.
   unfold backup_run in H.
-  assert (G : forall f t last r sc its x, loop f (ok_writes tl) (cancel tl) t last r sc = Some (its, x) ->
+  assert (G : forall f t last r sc its x, loop f (ok_writes tl) (read_faults tl) (cancel tl) t last r sc = Some (its, x) ->
               forall it, In it its -> 1 <= i_gen it).
   { clear. induction f as [|f IH]; intros t last r sc its x H it Hin; [discriminate|]. cbn [loop] in H.
-    destruct (iter_step (ok_writes tl) (cancel tl) t last r sc) as [[[[up t1] last'] r'] sc'].
+    destruct (iter_step (ok_writes tl) (read_faults tl) (cancel tl) t last r sc) as [[[[up t1] last'] r'] sc'].
     destruct (cancel tl <=? t1 + period).
     - injection H as <- _. destruct Hin as [<-|[]]. cbn. apply gen_at_pos.
-    - destruct (loop f (ok_writes tl) (cancel tl) (t1 + period) last' r' sc') as [[its' x']|] eqn:E; [|discriminate].
+    - destruct (loop f (ok_writes tl) (read_faults tl) (cancel tl) (t1 + period) last' r' sc') as [[its' x']|] eqn:E; [|discriminate].
       injection H as <- _. destruct Hin as [<-|Hin]; [cbn; apply gen_at_pos|eauto]. }
   rewrite Hg. eapply G; eauto. subst its. apply in_or_app. right. left. reflexivity.
 Qed.
@@ -416,7 +420,7 @@ Qed.
    depend on them at all ---- *)
 Lemma ok_writes_ignores tl extra :
   (forall e, In e extra -> snd e = false) ->
-  ok_writes {| writes := writes tl ++ extra; script := script tl; cancel := cancel tl |} = ok_writes tl.
+  ok_writes {| writes := writes tl ++ extra; script := script tl; cancel := cancel tl; read_faults := read_faults tl |} = ok_writes tl.
 Proof.
   intros H. unfold ok_writes. cbn [writes]. rewrite filter_app, map_app.
   assert (E : filter snd extra = []).
@@ -427,7 +431,7 @@ Qed.
 
 Theorem run_ignores_unchanged tl extra :
   (forall e, In e extra -> snd e = false) ->
-  backup_run {| writes := writes tl ++ extra; script := script tl; cancel := cancel tl |} = backup_run tl.
+  backup_run {| writes := writes tl ++ extra; script := script tl; cancel := cancel tl; read_faults := read_faults tl |} = backup_run tl.
 Proof. intros H. unfold backup_run. rewrite (ok_writes_ignores tl extra H). reflexivity. Qed.
 
 (* ---- how many uploads: each acknowledged upload covers a generation strictly above the
@@ -442,12 +446,12 @@ Lemma attempts_cons it its :
   attempts (it :: its) = match i_up it with Some a => a :: attempts its | None => attempts its end.
 Proof. unfold attempts. cbn [flat_map]. destruct (i_up it); reflexivity. Qed.
 
-Lemma loop_acked_bound f ws c : forall t last r sc its x,
-  okstate ws c t last r -> loop f ws c t last r sc = Some (its, x) ->
+Lemma loop_acked_bound f ws rf c : forall t last r sc its x,
+  okstate ws c t last r -> loop f ws rf c t last r sc = Some (its, x) ->
   n_acked (attempts its) + last <= 1 + r + n_races (attempts its) + N.of_nat (length ws).
 Proof.
   induction f as [|f IH]; intros t last r sc its x Hs H; [discriminate|].
-  destruct (loop_step _ _ _ _ _ _ _ _ _ Hs H) as (up & t1 & last' & r' & sc' & Es & _ & _ & _ & _ & _ & D).
+  destruct (loop_step _ _ _ _ _ _ _ _ _ _ Hs H) as (up & t1 & last' & r' & sc' & Es & _ & _ & _ & _ & _ & D).
   destruct Hs as [Htc Hl].
   pose proof (count_le_len t ws) as Hc.
   assert (Hg : gen_at ws r t <= 1 + r + N.of_nat (length ws)) by (unfold gen_at; lia).
@@ -456,15 +460,15 @@ Proof.
      n_acked (attempts ({| i_t := t; i_gen := gen_at ws r t; i_up := up |} :: rest)) + last
        <= 1 + r + n_races (attempts ({| i_t := t; i_gen := gen_at ws r t; i_up := up |} :: rest)) + N.of_nat (length ws)).
   { intros rest Hrest. rewrite attempts_cons. cbn [i_up]. destruct up as [a|].
-    - destruct (step_some _ _ _ _ _ _ _ _ _ _ _ Htc Es) as (Hne & _ & Hga & _ & _ & _ & _ & Hl' & _ & Hr' & _).
+    - destruct (step_some _ _ _ _ _ _ _ _ _ _ _ _ Htc Es) as (Hne & _ & Hga & _ & _ & _ & _ & Hl' & _ & Hr' & _).
       cbn [n_acked n_races]. destruct (a_ok a); lia.
-    - destruct (step_none _ _ _ _ _ _ _ _ _ _ Es) as (_ & _ & -> & -> & _). exact Hrest. }
+    - destruct (step_none _ _ _ _ _ _ _ _ _ _ _ Es) as (_ & _ & -> & -> & _). exact Hrest. }
   destruct D as [[_ ->]|(_ & Hs' & its' & Hrec & ->)].
   - apply Cur. change (attempts []) with (@nil attempt). cbn [n_acked n_races].
     destruct up as [a|].
-    + destruct (step_some _ _ _ _ _ _ _ _ _ _ _ Htc Es) as (Hne & _ & Hga & _ & _ & _ & _ & Hl' & _ & Hr' & _).
+    + destruct (step_some _ _ _ _ _ _ _ _ _ _ _ _ Htc Es) as (Hne & _ & Hga & _ & _ & _ & _ & Hl' & _ & Hr' & _).
       destruct (a_ok a) eqn:Eo; rewrite ?Eo in *; lia.
-    + destruct (step_none _ _ _ _ _ _ _ _ _ _ Es) as (_ & _ & -> & -> & _). lia.
+    + destruct (step_none _ _ _ _ _ _ _ _ _ _ _ Es) as (_ & _ & -> & -> & _). lia.
   - apply Cur. apply (IH _ _ _ _ _ _ Hs' Hrec).
 Qed.
 
@@ -481,7 +485,7 @@ Theorem run_upload_count tl its x : backup_run tl = Some (its, x) ->
   N.of_nat (length (attempts its))
   <= 1 + N.of_nat (length (ok_writes tl)) + n_races (attempts its) + n_failed (attempts its).
 Proof.
-  intros H. pose proof (loop_acked_bound _ _ _ _ _ _ _ _ _ (init_ok _ _) H).
+  intros H. pose proof (loop_acked_bound _ _ _ _ _ _ _ _ _ _ (init_ok _ _) H).
   rewrite acked_failed_len. lia.
 Qed.
 
@@ -586,6 +590,55 @@ Proof.
       destruct (Hs a Hu) as (_ & Hat & _). rewrite Hat. exact Ht.
     + destruct (run_change_driven _ _ _ H [] it rest eq_refl) as [_ Hs].
       destruct (Hs a Hu) as (Hg & _). rewrite Hg.
-      destruct (loop_head _ _ _ _ _ _ _ _ _ _ H) as (_ & Hgen & _). rewrite Hgen.
+      destruct (loop_head _ _ _ _ _ _ _ _ _ _ _ H) as (_ & Hgen & _). rewrite Hgen.
       unfold gen_at, open_gen. lia.
 Qed.
+
+(* ---- a failing READ of the database file at a backup instant: the attempt fails before
+   anything is sent ---- *)
+Lemma loop_sent f ws rf c : forall t last r sc its x,
+  okstate ws c t last r -> loop f ws rf c t last r sc = Some (its, x) ->
+  forall it a, In it its -> i_up it = Some a ->
+  a_sent a = negb (read_fails rf (i_t it)) /\ (a_sent a = false -> a_ok a = false /\ a_end a = a_t a /\ a_race a = 0).
+Proof.
+  induction f as [|f IH]; intros t last r sc its x Hs H it a Hin Hu; [discriminate|].
+  destruct (loop_step _ _ _ _ _ _ _ _ _ _ Hs H) as (up & t1 & last' & r' & sc' & Es & _ & _ & _ & _ & _ & D).
+  assert (Cur : forall a0, up = Some a0 ->
+            a_sent a0 = negb (read_fails rf t) /\ (a_sent a0 = false -> a_ok a0 = false /\ a_end a0 = a_t a0 /\ a_race a0 = 0)).
+  { intros a0 ->. destruct Hs as [Htc _].
+    destruct (step_some _ _ _ _ _ _ _ _ _ _ _ _ Htc Es) as (_ & Hat & _ & Hae & _ & _ & _ & _ & _ & Hr & _ & Hsent & Hns).
+    split; [exact Hsent|]. intros Hf. destruct (Hns Hf) as (Hok & Ht1 & Hr' & _).
+    repeat split; auto; [congruence|lia]. }
+  destruct D as [[_ ->]|(_ & Hs' & its' & Hrec & ->)].
+  - destruct Hin as [<-|[]]. cbn [i_up i_t] in *. apply Cur. exact Hu.
+  - destruct Hin as [<-|Hin].
+    + cbn [i_up i_t] in *. apply Cur. exact Hu.
+    + eapply IH; eauto.
+Qed.
+
+(* when os.ReadFile fails at a backup instant: nothing is sent (no object at all, hence no empty
+   or partial one), the attempt is not acknowledged and takes no time, lastWriteGen does not
+   advance - and (run_retry) the very next iteration tries again *)
+Theorem run_read_failure tl its x : backup_run tl = Some (its, x) ->
+  forall pre it post a, its = pre ++ it :: post -> i_up it = Some a ->
+  a_sent a = negb (read_fails (read_faults tl) (i_t it))
+  /\ (a_sent a = false ->
+      a_ok a = false /\ a_end a = a_t a /\ lastok 0 (pre ++ [it]) = lastok 0 pre
+      /\ (forall it2 post', post = it2 :: post' -> i_up it2 <> None /\ i_t it2 = i_t it + period)).
+Proof.
+  intros H pre it post a E Hu.
+  assert (Hin : In it its) by (subst its; apply in_or_app; right; left; reflexivity).
+  destruct (loop_sent _ _ _ _ _ _ _ _ _ _ (init_ok _ _) H it a Hin Hu) as [Hs Hn].
+  split; [exact Hs|]. intros Hf. destruct (Hn Hf) as (Hok & He & _).
+  repeat split; auto.
+  - rewrite lastok_app. cbn. unfold lastok_step. rewrite Hu, Hok. reflexivity.
+  - subst post. eapply run_retry; eauto.
+  - subst post. destruct (run_rate _ _ _ H pre it it2 post' E) as [Ht _]. rewrite Ht.
+    unfold end_of. rewrite Hu, He.
+    destruct (run_change_driven _ _ _ H pre it (it2 :: post') E) as [_ Hc]. destruct (Hc a Hu) as (_ & Hat & _).
+    rewrite Hat. reflexivity.
+Qed.
+
+(* everything that reaches the store is the file of the generation read: [sent] attempts only *)
+Lemma sent_subset its a : In a (sent its) -> In a (attempts its) /\ a_sent a = true.
+Proof. unfold sent. intros H. apply filter_In in H. exact H. Qed.
